@@ -10,29 +10,47 @@
 typedef void (*case_fn)(uint64_t idx);
 static double g_case_budget_s = 0.02;   /* per-case time allowance used for alarm() */
 static unsigned long g_crashes = 0;
+static volatile int *g_phase;
 
 static void run_cases(case_fn fn, uint64_t lo, uint64_t hi, const char *label) {
     if (lo >= hi) return;
     fflush(stdout);
+    /* the child's stderr goes to an unlinked temp file capped at 1 MiB (a flood of sanitizer
+     * warnings must not fill pipes or memory); the parent echoes the head of it for single cases */
+    char tmpl[] = "/tmp/nvmprobe.XXXXXX";
+    const char *td = getenv("TMPDIR");
+    char path[4096]; snprintf(path, sizeof path, "%s/nvmprobe.XXXXXX", td && *td ? td : "/tmp"); (void)tmpl;
+    int efd = mkstemp(path);
+    if (efd >= 0) unlink(path);
     pid_t p = fork();
     if (p < 0) { perror("fork"); exit(3); }
     if (p == 0) {
-        double secs = 10.0 + (double)(hi - lo) * g_case_budget_s;
-        if (hi - lo == 1) secs = 20.0;
+        double secs = 4.0 + (double)(hi - lo) * g_case_budget_s;
+        if (hi - lo == 1) secs = 10.0;
         alarm((unsigned)secs + 1);
+        if (efd >= 0) {
+            struct rlimit rl = {1 << 20, 1 << 20}; setrlimit(RLIMIT_FSIZE, &rl); signal(SIGXFSZ, SIG_IGN);
+            dup2(efd, 2); close(efd);
+        }
         for (uint64_t i = lo; i < hi; i++) fn(i);
         fflush(stdout);
         _exit(0);
     }
     int st = 0;
     while (waitpid(p, &st, 0) < 0) {}
-    if (WIFEXITED(st) && WEXITSTATUS(st) == 0) return;
+    if (WIFEXITED(st) && WEXITSTATUS(st) == 0) { if (efd >= 0) close(efd); return; }
     if (hi - lo == 1) {
         g_crashes++;
-        if (WIFSIGNALED(st)) printf("FAIL %s-crash idx=%llu signal=%d%s\n", label, (unsigned long long)lo, WTERMSIG(st), WTERMSIG(st) == SIGALRM ? " (timeout)" : "");
-        else printf("FAIL %s-crash idx=%llu exit=%d (sanitizer report or abort)\n", label, (unsigned long long)lo, WEXITSTATUS(st));
+        if (WIFSIGNALED(st)) printf("FAIL %s-crash idx=%llu signal=%d%s phase=%d op=%d\n", label, (unsigned long long)lo, WTERMSIG(st), WTERMSIG(st) == SIGALRM ? " (timeout)" : "", g_phase ? g_phase[0] : -1, g_phase ? g_phase[1] : -1);
+        else printf("FAIL %s-crash idx=%llu exit=%d (sanitizer report or abort) phase=%d op=%d\n", label, (unsigned long long)lo, WEXITSTATUS(st), g_phase ? g_phase[0] : -1, g_phase ? g_phase[1] : -1);
+        if (efd >= 0) {
+            char buf[16384]; lseek(efd, 0, SEEK_SET); ssize_t n = read(efd, buf, sizeof buf);
+            if (n > 0) { fflush(stderr); if (write(2, buf, (size_t)n) < 0) {} }
+            close(efd);
+        }
         return;
     }
+    if (efd >= 0) close(efd);
     uint64_t mid = lo + (hi - lo) / 2;
     run_cases(fn, lo, mid, label);
     run_cases(fn, mid, hi, label);
@@ -235,9 +253,148 @@ static int cmd_c10b(int argc, char **argv) {
     return 0;
 }
 
+/* ------------------------------------------------------------------ C13: hostile modules
+ * c13 <base.nvm> <mutations.txt> <lo> <hi> <fuel>
+ * Each line of the mutation file is one case: ';'-separated edits applied to the base image
+ *   P<off>:<hex>            overwrite bytes at <off>
+ *   S<off>:<del>:<hex>      splice: delete <del> bytes at <off>, insert <hex>
+ *   T<len>                  truncate to <len>
+ *   R<hex>                  replace the whole image
+ *   N                       do NOT recompute the checksum (default: recomputed)
+ * then: load -> verify -> (accepted, import-free, has main) run under an instruction budget. */
+static uint8_t *g_base; static uint32_t g_base_size;
+static char **g_mut; static uint64_t g_nmut;
+static long g_fuel = 20000, g_fuel_left;
+/* g_phase (declared above) is shared: [0]=phase 0 idle/1 load/2 verify/3 exec/4 destroy, [1]=last opcode, [2]=ip */
+static FILE *g_devnull;
+enum { C13_LOADED = 0, C13_VERIFIED, C13_RAN, C13_RAN_OK, C13_RAN_ERR, C13_FUEL, C13_NCNT };
+
+static int c13_step(VmState *vm) {
+    if (vm->module && vm->ip < vm->module->code_size) g_phase[1] = vm->module->code[vm->ip];
+    g_phase[2] = (int)vm->ip;
+    return --g_fuel_left >= 0;
+}
+static int hexval(int c) { return c <= '9' ? c - '0' : (c | 32) - 'a' + 10; }
+static uint32_t parse_hex(const char *h, uint8_t *out) {
+    uint32_t n = 0; while (h[0] && h[1] && h[0] != ';' && h[0] != '\n') { out[n++] = (uint8_t)(hexval(h[0]) << 4 | hexval(h[1])); h += 2; } return n;
+}
+static uint8_t *c13_build(uint64_t idx, uint32_t *out_size) {
+    uint32_t cap = g_base_size + (uint32_t)strlen(g_mut[idx]) + 64, size = g_base_size;
+    uint8_t *img = malloc(cap); memcpy(img, g_base, g_base_size);
+    bool fix_crc = true;
+    const char *q = g_mut[idx];
+    while (*q && *q != '\n') {
+        if (*q == 'P') { uint32_t off = (uint32_t)strtoul(q + 1, (char **)&q, 10); q++; uint8_t *tmp = malloc(strlen(q) / 2 + 1); uint32_t n = parse_hex(q, tmp);
+            if (off + n <= size) memcpy(img + off, tmp, n); free(tmp); }
+        else if (*q == 'S') { uint32_t off = (uint32_t)strtoul(q + 1, (char **)&q, 10); q++; uint32_t del = (uint32_t)strtoul(q, (char **)&q, 10); q++;
+            uint8_t *tmp = malloc(strlen(q) / 2 + 1); uint32_t n = parse_hex(q, tmp);
+            if (off + del <= size) { memmove(img + off + n, img + off + del, size - off - del); memcpy(img + off, tmp, n); size = size - del + n; } free(tmp); }
+        else if (*q == 'T') { uint32_t l = (uint32_t)strtoul(q + 1, (char **)&q, 10); if (l <= size) size = l; }
+        else if (*q == 'R') { uint8_t *tmp = malloc(strlen(q) / 2 + 1); uint32_t n = parse_hex(q + 1, tmp); free(img); img = malloc(n + 64); memcpy(img, tmp, n); size = n; free(tmp); }
+        else if (*q == 'N') fix_crc = false;
+        while (*q && *q != ';' && *q != '\n') q++;
+        if (*q == ';') q++;
+    }
+    if (fix_crc && size >= NVM_HEADER_SIZE) {
+        uint32_t crc = nvm_crc32(img + NVM_HEADER_SIZE, size - NVM_HEADER_SIZE);
+        img[28] = (uint8_t)crc; img[29] = (uint8_t)(crc >> 8); img[30] = (uint8_t)(crc >> 16); img[31] = (uint8_t)(crc >> 24);
+    }
+    uint8_t *exact = malloc(size ? size : 1); memcpy(exact, img, size); free(img);   /* exact size: asan sees overreads */
+    *out_size = size; return exact;
+}
+/* is `ip` an instruction boundary of the verifier's linear walk of the function containing it? */
+static int on_verified_boundary(const NvmModule *m, uint32_t fn_idx, uint32_t ip) {
+    if (fn_idx >= m->function_count) return 0;
+    const NvmFunctionEntry *fn = &m->functions[fn_idx];
+    uint32_t pos = 0;
+    while (pos < fn->code_length) {
+        if (fn->code_offset + pos == ip) return 1;
+        DecodedInstruction d; uint32_t n = isa_decode(m->code + fn->code_offset + pos, fn->code_length - pos, &d);
+        if (!n) return 0;
+        pos += n;
+    }
+    return 0;
+}
+static void c13_case(uint64_t idx) {
+    uint32_t size; g_phase[0] = 1; g_phase[1] = -1; g_phase[2] = -1;
+    uint8_t *img = c13_build(idx, &size);
+    NvmModule *m = nvm_deserialize(img, size);
+    free(img);
+    __sync_fetch_and_add(&g_counter[CNT_EVAL], 1);
+    if (!m) { g_phase[0] = 0; return; }
+    __sync_fetch_and_add(&g_counter[8 + C13_LOADED], 1);
+    g_phase[0] = 2;
+    NvmVerifyResult vr = nvm_verify(m);
+    if (vr.ok) {
+        __sync_fetch_and_add(&g_counter[8 + C13_VERIFIED], 1);
+        if (m->import_count == 0 && (m->header.flags & NVM_FLAG_HAS_MAIN)) {
+            g_phase[0] = 3;
+            VmState *vm = calloc(1, sizeof *vm);
+            vm_init(vm, m);
+            vm->output = g_devnull;
+            g_fuel_left = g_fuel; nl_verif_vm_step = c13_step;
+            VmResult r = vm_execute(vm);
+            nl_verif_vm_step = NULL;
+            __sync_fetch_and_add(&g_counter[8 + C13_RAN], 1);
+            if (g_fuel_left < 0) __sync_fetch_and_add(&g_counter[8 + C13_FUEL], 1);
+            else if (r == VM_OK) __sync_fetch_and_add(&g_counter[8 + C13_RAN_OK], 1);
+            else __sync_fetch_and_add(&g_counter[8 + C13_RAN_ERR], 1);
+            if (r == VM_ERR_DECODE || r == VM_ERR_INVALID_OPCODE) {
+                if (on_verified_boundary(m, vm->current_fn, vm->ip))
+                    printf("FAIL c13-decode-on-verified-path idx=%llu result=%d ip=%u fn=%u msg=%s\n", (unsigned long long)idx, (int)r, vm->ip, vm->current_fn, vm->error_msg);
+            }
+            g_phase[0] = 4;
+            vm_destroy(vm);
+            free(vm);
+        }
+    }
+    nvm_module_free(m);
+    g_phase[0] = 0;
+}
+static int cmd_c13(int argc, char **argv) {
+    if (argc < 5) { fprintf(stderr, "c13 <base> <mutfile> <lo> <hi> <fuel>\n"); return 3; }
+    g_base = read_file(argv[0], &g_base_size);
+    uint32_t msz; char *mt = (char *)read_file(argv[1], &msz);
+    mt = realloc(mt, msz + 1); mt[msz] = 0;
+    uint64_t cap = 1024; g_mut = malloc(cap * sizeof(char *));
+    for (char *l = mt; *l; ) { if (g_nmut == cap) { cap *= 2; g_mut = realloc(g_mut, cap * sizeof(char *)); } g_mut[g_nmut++] = l; char *e = strchr(l, '\n'); if (!e) break; *e = 0; l = e + 1; }
+    uint64_t lo = strtoull(argv[2], NULL, 10), hi = strtoull(argv[3], NULL, 10);
+    g_fuel = atol(argv[4]);
+    if (hi == 0 || hi > g_nmut) hi = g_nmut;
+    g_counter = shared_zero(sizeof(unsigned long long) * 32);
+    g_phase = shared_zero(sizeof(int) * 8);
+    g_devnull = fopen("/dev/null", "w");
+    g_case_budget_s = 0.05;
+    /* single-case mode reports phase/opcode of a crash precisely; ranges are bisected */
+    fflush(stdout);
+    for (uint64_t a = lo; a < hi; a += 256) {
+        uint64_t b = a + 256 < hi ? a + 256 : hi;
+        unsigned long before = g_crashes;
+        run_cases(c13_case, a, b, "c13");
+        (void)before;
+    }
+    printf("STAT cases=%llu evaluations=%llu loaded=%llu verified=%llu ran=%llu ran_ok=%llu ran_err=%llu fuel_exhausted=%llu crashes=%lu last_phase=%d last_op=%d last_ip=%d\n",
+           (unsigned long long)(hi - lo), g_counter[CNT_EVAL], g_counter[8 + C13_LOADED], g_counter[8 + C13_VERIFIED], g_counter[8 + C13_RAN],
+           g_counter[8 + C13_RAN_OK], g_counter[8 + C13_RAN_ERR], g_counter[8 + C13_FUEL], g_crashes, g_phase[0], g_phase[1], g_phase[2]);
+    return 0;
+}
+/* optable: opcode name operand-types, for the Python layout parser */
+static int cmd_optable(void) {
+    for (int op = 0; op < 256; op++) {
+        const InstructionInfo *in = isa_get_info((uint8_t)op);
+        if (!in) continue;
+        printf("%d %s", op, in->name);
+        for (int i = 0; i < in->operand_count; i++) printf(" %d", (int)in->operands[i]);
+        printf("\n");
+    }
+    return 0;
+}
+
 static int more_main(int argc, char **argv) {
     const char *c = argv[1];
     if (!strcmp(c, "c12")) return cmd_c12(argc - 2, argv + 2);
+    if (!strcmp(c, "c13")) return cmd_c13(argc - 2, argv + 2);
+    if (!strcmp(c, "optable")) return cmd_optable();
     if (!strcmp(c, "c10b")) return cmd_c10b(argc - 2, argv + 2);
     fprintf(stderr, "unknown command %s\n", c);
     return 3;
